@@ -9,7 +9,7 @@ freshly allocated, uninitialised arrays
 
 A load returns the value the cell holds — the junk of the allocation if the cell was never written, exactly what the
 machine does — together with the cell's `written` flag; every model threads a flag `ok` that turns `false` at the
-first load of an unwritten (or out-of-range) cell.  The theorems (`Properties/C10b.lean`) show `ok = true`, every cell
+first load of an unwritten (or out-of-range) cell.  The theorems (`Properties/C10c.lean`) show `ok = true`, every cell
 of the result written, and the result equal to the flat image of the row-level model the correspondence check
 validates, for every prior heap content.
 
